@@ -228,6 +228,53 @@ theorem gen_alloc_refused (σ : ArSt) (n : Int) (idx : Int) (cz : Bool) (hc : σ
       rw [hjc]
       exact mClr_in _ _ _ _ hk
 
+/-- the invariant relative to a set `R` of blocks that are about to be released: free blocks *and the blocks of `R`* recorded as committed are accessible -/
+def AInvR (R : Nat → Bool) (σ : ArSt) : Prop := ∀ k, (σ.inuse k = false ∨ R k = true) → σ.committed k = true → σ.os k = true
+
+theorem AInvR_of (σ : ArSt) (h : AInvG σ) : AInvR (fun _ => false) σ := by
+  intro k hk hc; rcases hk with hk | hk
+  · exact h k hk hc
+  · cases hk
+theorem AInvG_of (σ : ArSt) (h : AInvR (fun _ => false) σ) : AInvG σ := fun k hk hc => h k (Or.inl hk) hc
+
+theorem gen_purge_invR (R : Nat → Bool) (σ : ArSt) (idx n : Int) (nr1 g1 nr2 g2 : Bool) (hon1 : g1 = true → nr1 = true) (hon2 : g2 = true → nr2 = true)
+    (h : AInvR R σ) : AInvR R (mi_arena_purge σ idx n nr1 g1 nr2 g2) := by
+  have hb : blocksOf σ (blockStart σ idx) (n * 33554432) = (idx, n) := blocksOf_start σ idx n
+  have key : ∀ (nr g : Bool), (g = true → nr = true) →
+      AInvR R (if nr = true then
+          { σ with os := if g then mClr σ.os idx n else σ.os, purge := mClr σ.purge idx n, committed := mClr σ.committed idx n }
+        else { σ with os := if g then mClr σ.os idx n else σ.os, purge := mClr σ.purge idx n }) := by
+    intro nr g hon k hk1 hk2
+    cases g
+    · cases nr
+      · exact h k hk1 hk2
+      · exact h k hk1 (mClr_true _ _ _ _ hk2).1
+    · rw [hon rfl] at hk1 hk2 ⊢
+      simp only [if_true] at hk1 hk2 ⊢
+      obtain ⟨hc, hr⟩ := mClr_true _ _ _ _ hk2
+      rw [mClr_out _ _ _ _ hr]
+      exact h k hk1 hc
+  unfold mi_arena_purge osPurge
+  simp only [hb]
+  split
+  · have := key nr1 g1 hon1
+    split at this <;> rename_i hh <;> simp only [hh, if_true, if_false] <;> exact this
+  · have := key nr2 g2 hon2
+    split at this <;> rename_i hh <;> simp only [hh, if_true, if_false] <;> exact this
+
+theorem gen_schedule_invR (R : Nat → Bool) (σ : ArSt) (idx n delay : Int) (pre nr1 g1 nr2 g2 : Bool) (now : Int)
+    (hon1 : g1 = true → nr1 = true) (hon2 : g2 = true → nr2 = true) (h : AInvR R σ) :
+    AInvR R (mi_arena_schedule_purge σ idx n delay pre nr1 g1 nr2 g2 now) := by
+  unfold mi_arena_schedule_purge
+  simp only []
+  split
+  · exact h
+  · split
+    · exact gen_purge_invR R σ idx n nr1 g1 nr2 g2 hon1 hon2 h
+    · split
+      · split <;> exact h
+      · exact h
+
 /-- **generated mi_arena_purge keeps the invariant** provided access is revoked only when a re-commit is reported as needed (both call
     sites of the OS purge) -/
 theorem gen_purge_inv (σ : ArSt) (idx n : Int) (nr1 g1 nr2 g2 : Bool) (hon1 : g1 = true → nr1 = true) (hon2 : g2 = true → nr2 = true)
@@ -282,5 +329,40 @@ theorem gen_schedule_expire (σ : ArSt) (idx n delay : Int) (nr1 g1 nr2 g2 : Boo
   split
   · split <;> rfl
   · rfl
+
+/-- **generated core of _mi_arena_free keeps the invariant**: for an arena that tracks its commit state, releasing the blocks `[idx, idx+n)`
+    keeps "free blocks recorded as committed are accessible", provided the caller reports `all_committed` only for a range that is
+    accessible (for a segment: `full_mask_means_accessible`); a partly committed range is recorded as uncommitted before it is released -/
+theorem gen_free_core_inv (σ : ArSt) (allc : Bool) (idx n delay : Int) (pre nr1 g1 nr2 g2 : Bool) (now : Int)
+    (hon1 : g1 = true → nr1 = true) (hon2 : g2 = true → nr2 = true) (hc : σ.hasCommitted = true) (hp : σ.pinned = false)
+    (h : AInvG σ) (hall : allc = true → ∀ k, inRange idx n k = true → σ.os k = true) :
+    AInvG (_mi_arena_free_core σ allc idx n delay pre nr1 g1 nr2 g2 now) := by
+  unfold _mi_arena_free_core
+  have hcond : (σ.pinned || !σ.hasCommitted) = false := by rw [hp, hc]; rfl
+  simp only [hcond, Bool.false_eq_true, if_false]
+  -- the state after the `all_committed` test is sound on the range as well
+  have h1 : AInvR (inRange idx n) (if (!allc) = true then { σ with committed := mClr σ.committed idx n } else σ) := by
+    intro k hk hcm
+    cases allc
+    · simp only [Bool.not_false, if_true] at hcm ⊢
+      obtain ⟨hc', hr⟩ := mClr_true _ _ _ _ hcm
+      rcases hk with hk | hk
+      · exact h k hk hc'
+      · rw [hr] at hk; cases hk
+    · simp only [Bool.not_true, Bool.false_eq_true, if_false] at hcm hk ⊢
+      rcases hk with hk | hk
+      · exact h k hk hcm
+      · exact hall rfl k hk
+  have h2 := gen_schedule_invR (inRange idx n) _ idx n delay pre nr1 g1 nr2 g2 now hon1 hon2 h1
+  generalize mi_arena_schedule_purge (if (!allc) = true then { σ with committed := mClr σ.committed idx n } else σ) idx n delay pre nr1 g1 nr2 g2 now = τ at h2
+  have h3 : AInvG { τ with inuse := mClr τ.inuse idx n } := by
+    intro k hk hcm
+    cases hr : inRange idx n k
+    · have : τ.inuse k = false := by
+        have e : mClr τ.inuse idx n k = τ.inuse k := mClr_out _ _ _ _ hr
+        rw [← e]; exact hk
+      exact h2 k (Or.inl this) hcm
+    · exact h2 k (Or.inr hr) hcm
+  split <;> exact h3
 
 end C07A
